@@ -161,8 +161,8 @@ theorem vstep_determined (c : Config) (hk : c.keep = true) (hs : c.safe = false)
     (vStepOps c g).2 = ⟨false, false, true⟩ := by
   obtain ⟨isSync, recalc, allocated⟩ := g
   simp only at hg; subst hg
-  cases isSync <;> cases recalc <;>
-    simp [vStepOps, vPart1Ops, vPart2Ops, vSyncOps, initF, hk, hs, vTransferList, vTransfer]
+  cases isSync <;> cases recalc <;> cases hv : c.vfix <;>
+    simp [vStepOps, vPart1Ops, vPart2Ops, vSyncOps, initF, hk, hs, hv, vTransferList, vTransfer]
 
 theorem vsync_keep (S : VSem T PJ X V A VX VV VA) (c : Config) (hk : c.keep = true) (f : Flags)
     (s : VSt PJ X V A VX VV VA) :
@@ -246,5 +246,105 @@ theorem vrel_sync_obs (S : VSem T PJ X V A VX VV VA) (c : Config) (hk : c.keep =
     rw [(vsync_keep S c hk (initF x.1) x.2).2.2 hs', (vsync_keep S c hk (initF x.1) y.2).2.2 hs']
     have := h.2.2 hs
     exact ⟨h.2.1, this.1, this.2.1, this.2.2.1, this.2.2.2⟩
+
+/-! ### the variational centre of mass: drift accounting
+
+  `p_jh[vc.index]` (the centre of mass of a set of variational particles) is moved by nothing but
+  the two explicit half drifts `p_jh[index].pos += dt/2 · p_jh[index].vel` at the end of part1 and
+  in the `N_var_config` block of part2.  A *clock* reads off a state how many such half drifts the
+  variational centre of mass has received; the laws say which primitive does what to it (facts
+  about the C primitives: Kepler / COM / jump / interaction steps do not move that entry's
+  position, the explicit drift adds its coefficient, the transformations carry it over). -/
+
+structure VClock (S : VSem T PJ X V A VX VV VA) where
+  κ : PJ → Int                 -- half drifts received by the variational COM held in `p_jh`
+  κx : VX → Int                -- … by the variational particles the user sees
+  half : T → Int
+  kepler : ∀ t p, κ (S.kepler t p) = κ p
+  com : ∀ t p, κ (S.com t p) = κ p
+  jump : ∀ t p, κ (S.jump t p) = κ p
+  inter : ∀ t a va p, κ (S.inter t a va p) = κ p
+  vcom : ∀ t p, κ (S.vcom t p) = κ p + half t
+  vposOf : ∀ p, κx (S.vposOf p) = κ p
+  fromI : ∀ x v vx vv p, κ (S.fromI x v vx vv p) = κx vx
+  rescale : ∀ vx vv, κx (S.rescaleX vx vv) = κx vx
+  ev_half : half (S.ev (.frac 1 2)) = 1
+
+/-- both copies of the variational centre of mass have received `n` half drifts -/
+def VInv {S : VSem T PJ X V A VX VV VA} (K : VClock S) (n : Int)
+    (x : Flags × VSt PJ X V A VX VV VA) : Prop :=
+  K.κx x.2.vpos = n ∧
+  (K.κ x.2.pj = n ∨ (x.1.isSync = true ∧ (x.1.recalc = true ∨ x.1.allocated = false)))
+
+/-- every API operation keeps the two copies together; a step adds exactly two half drifts to both —
+    for every combination of safe_mode, keep_unsynchronized and internal flags (repaired source) -/
+theorem vinv_apply {S : VSem T PJ X V A VX VV VA} (K : VClock S) (c : Config) (hv : c.vfix = true)
+    (o : Op Unit) (n : Int) (x : Flags × VSt PJ X V A VX VV VA) (h : VInv K n x) :
+    VInv K (n + if o.isStep then 2 else 0) (vApply S c o x) := by
+  obtain ⟨⟨isSync, recalc, allocated⟩, s⟩ := x
+  obtain ⟨h1, h2⟩ := h
+  simp only at h1 h2
+  cases o with
+  | read => simpa [vApply, vOpOps, vExec, VInv, Op.isStep] using ⟨h1, h2⟩
+  | poke v => simpa [vApply, vOpOps, vExec, VInv, Op.isStep] using ⟨h1, h2⟩
+  | setRecalc =>
+    refine ⟨by simpa [vApply, vOpOps, vExec, Op.isStep] using h1, ?_⟩
+    rcases h2 with h2 | ⟨h2, _⟩
+    · left; simpa [vApply, vOpOps, vExec, Op.isStep] using h2
+    · right; exact ⟨h2, Or.inl rfl⟩
+  | synchronize =>
+    cases allocated <;> cases isSync <;> cases hk : c.keep <;>
+      simp_all [vApply, vOpOps, vSyncOps, initF, vExec, vDenote, VInv, Op.isStep, K.kepler, K.com,
+        K.vposOf]
+  | step =>
+    cases allocated <;> cases isSync <;> cases recalc <;> cases hk : c.keep <;> cases hs : c.safe <;>
+      simp_all [vApply, vOpOps, vStepOps, vPart1Ops, vPart2Ops, vSyncOps, initF, vExec, vDenote, VInv,
+        Op.isStep, K.kepler, K.com, K.jump, K.inter, K.vcom, K.vposOf, K.fromI, K.rescale, K.ev_half] <;>
+      omega
+
+def stepCount (σ : List (Op Unit)) : Int := ((σ.filter Op.isStep).length : Int)
+
+theorem vinv_run {S : VSem T PJ X V A VX VV VA} (K : VClock S) (c : Config) (hv : c.vfix = true)
+    (σ : List (Op Unit)) (n : Int) (x : Flags × VSt PJ X V A VX VV VA) (h : VInv K n x) :
+    VInv K (n + 2 * stepCount σ) (vRun S c σ x) := by
+  induction σ generalizing n x with
+  | nil => simpa [vRun, stepCount] using h
+  | cons o os ih =>
+    have := ih _ _ (vinv_apply K c hv o n x h)
+    have e : n + 2 * stepCount (o :: os) = (n + if o.isStep then 2 else 0) + 2 * stepCount os := by
+      cases o <;> simp [stepCount, List.filter, Op.isStep] <;> omega
+    rw [e]; exact this
+
+/-- concrete clock: the state *is* the count -/
+def clockSem : VSem Int Int Unit Unit Unit Int Int Unit where
+  ev := fun τ => match τ with | .frac n 2 => n | .frac n 1 => 2 * n | _ => 0
+  fromI := fun _ _ vx _ _ => vx
+  toIpos := fun _ => ()
+  toIvel := fun _ => ()
+  kepler := fun _ p => p
+  com := fun _ p => p
+  jump := fun _ p => p
+  inter := fun _ _ _ p => p
+  upd := fun _ => ()
+  updV := fun _ _ => ()
+  vcom := fun t p => p + t
+  vposOf := fun p => p
+  vvelOf := fun p => p
+  rescaleX := fun vx _ => vx
+  rescaleV := fun _ vv => vv
+
+def clockK : VClock clockSem where
+  κ := id
+  κx := id
+  half := id
+  kepler := fun _ _ => rfl
+  com := fun _ _ => rfl
+  jump := fun _ _ => rfl
+  inter := fun _ _ _ _ => rfl
+  vcom := fun _ _ => rfl
+  vposOf := fun _ => rfl
+  fromI := fun _ _ _ _ _ => rfl
+  rescale := fun _ _ => rfl
+  ev_half := rfl
 
 end RV.Sync.Var
